@@ -363,8 +363,24 @@ def handle_disagreement(ctx, scen, idx, segments, r, extra_problem, release, ora
 
 
 def parallel(fn, items, workers=12):
+    """runs every case; an exception inside one case does not stop the others (they may still record violations with their
+    replays) - the first one is raised again afterwards and ends the check as an internal error (./check: exit 1 with the
+    violations recorded so far, exit 2 when there are none)"""
+    errs = []
+
+    def safe(x):
+        try:
+            return fn(x)
+        except Exception as e:
+            import traceback
+            traceback.print_exc()
+            errs.append(e)
+            return None
     with ThreadPoolExecutor(max_workers=workers) as ex:
-        return list(ex.map(fn, items))
+        res = list(ex.map(safe, items))
+    if errs:
+        raise errs[0]
+    return res
 
 
 def run_corpus(ctx):
